@@ -2135,9 +2135,9 @@ Proof.
   apply andb_prop in R. destruct R as [R1 R2]. apply Z.leb_le in R1. apply Z.leb_le in R2. unfold iv. lia.
 Qed.
 
-Lemma const_range_local n' n : rel1 n' n -> good cn n = true -> Site_cr n -> esim (fst (const_range_v n')) n.
+Lemma const_range_local0 n' n : rel1 n' n -> good cn n = true -> esim (fst (const_range_v n')) n.
 Proof.
-  intros Hrel G HS. pose proof (rel1_esim _ _ _ _ _ _ Hrel) as Hdef. destruct Hrel as (cs & -> & H).
+  intros Hrel G. pose proof (rel1_esim _ _ _ _ _ _ Hrel) as Hdef. destruct Hrel as (cs & -> & H).
   prep_children H n; cbn [rebuild] in *; cbn [const_range_v]; try exact Hdef.
   destruct op; try exact Hdef.
   destruct (int_lit x) as [[a1 lo]|] eqn:L1; [|exact Hdef]. destruct (int_lit x0) as [[a2 hi]|] eqn:L2; [|exact Hdef].
@@ -2156,41 +2156,28 @@ Proof.
     - rewrite Er in Hs. apply rsim_Done_inv in Hs. destruct Hs as [(l2 & s2 & E2)|(s2 & E2 & S2)].
       + apply budget_sim. rewrite E2. eexists _, _; reflexivity.
       + rewrite E2, (Hv n Rs). apply rsim_Done. destruct S2 as [M2 T2]. cbn [r_mem r_trace] in *. split; [lia|exact T2]. }
-  (* what the original bounds evaluate to: needed for the no-overflow side condition *)
-  assert (Span : forall ctx s, is_budget (ev ctx (EBinary a BRange n1 n2) s) \/ - 2 ^ 63 <= iv hi - iv lo).
-  { match goal with E1 : esim (EInt a1 lo) n1 |- _ => rename E1 into Hx1 end.
-    match goal with E2 : esim (EInt a2 hi) n2 |- _ => rename E2 into Hx2 end.
-    intros ctx s.
-    pose proof (es_sem _ _ _ _ _ _ (proj1 Hx1) ctx s s (ssim_refl cn s)) as H1.
-    rewrite ev_int, (int_const_int a1 KInt lo Lf eq_refl) in H1. apply rsim_Done_inv in H1.
-    destruct H1 as [(l2 & s2 & E)|(s1 & E & S1)].
-    { left. rewrite ev_binary. cbn [is_or is_and]. rewrite E. eexists _, _; reflexivity. }
-    pose proof (es_sem _ _ _ _ _ _ (proj1 Hx2) ctx s1 s1 (ssim_refl cn s1)) as H2.
-    rewrite ev_int, (int_const_int a2 KInt hi Lt eq_refl) in H2. apply rsim_Done_inv in H2.
-    destruct H2 as [(l2 & s2 & E')|(s2 & E' & S2)].
-    { left. rewrite ev_binary. cbn [is_or is_and]. rewrite E. cbn [rbind]. rewrite E'. eexists _, _; reflexivity. }
-    right. exact (HS _ _ _ eq_refl ctx s _ _ _ _ E E'). }
+  (* since the repair of const_range.go (a descending range is tested on the values, the size only
+     decides whether an ascending one is materialised) the span hypothesis `Site_cr` is not used *)
   pose proof (iv_range lo) as Rlo. pose proof (iv_range hi) as Rhi.
-  destruct (Z.ltb_spec size 1) as [Sz|Sz].
-  - (* folded to the empty slice *)
+  destruct (Z.ltb_spec (iv hi) (iv lo)) as [D|D].
+  - (* max < min: folded to the empty slice *)
     cbn [fst patch set_ann ann_of]. apply leaf_esim; try reflexivity; try discriminate.
-    intros ctx s' s S. destruct (Span ctx s) as [B|Sp]; [apply budget_sim; exact B|].
-    apply Sem; [|exact S]. intros n Rn. unfold make_range, range_size in *.
-    destruct (Z.ltb_spec (iv hi) (iv lo)) as [D|D]; [reflexivity|].
+    intros ctx s' s S. apply Sem; [|exact S]. intros n Rn. unfold make_range.
+    destruct (Z.ltb_spec (iv hi) (iv lo)); [reflexivity|lia].
+  - cbv zeta. fold size.
+    destruct (Z.ltb_spec size 1) as [Sz|Sz]; [exact Hdef|]. cbn [orb].
+    destruct (Z.ltb_spec range_window size) as [W|W]; [exact Hdef|].
+    cbn [fst patch set_ann ann_of]. apply leaf_esim; try reflexivity; try discriminate.
+    intros ctx s' s S. apply Sem; [|exact S]. intros n Rn. unfold make_range, range_size in *.
+    destruct (Z.ltb_spec (iv hi) (iv lo)) as [D'|D']; [lia|].
     destruct (Z.leb_spec (iv hi - iv lo + 1) (max_of KInt)) as [M|M]; [|discriminate].
-    exfalso. unfold size in Sz. rewrite wrap_in_range in Sz; [lia|reflexivity|].
+    unfold size. rewrite wrap_in_range; [reflexivity|reflexivity|].
     unfold in_range, min_of, max_of in *. cbn in *. apply andb_true_intro. split; apply Z.leb_le; lia.
-  - destruct (Z.ltb_spec range_window size) as [W|W]; [exact Hdef|].
-    cbn [fst patch set_ann ann_of]. apply leaf_esim; try reflexivity; try discriminate.
-    intros ctx s' s S. destruct (Span ctx s) as [B|Sp]; [apply budget_sim; exact B|].
-    apply Sem; [|exact S]. intros n Rn. unfold make_range, range_size in *.
-    destruct (Z.ltb_spec (iv hi) (iv lo)) as [D|D].
-    + exfalso. unfold size in Sz. rewrite wrap_in_range in Sz; [lia|reflexivity|].
-      unfold in_range, min_of, max_of. cbn. apply andb_true_intro. split; apply Z.leb_le; lia.
-    + destruct (Z.leb_spec (iv hi - iv lo + 1) (max_of KInt)) as [M|M]; [|discriminate].
-      unfold size. rewrite wrap_in_range; [reflexivity|reflexivity|].
-      unfold in_range, min_of, max_of in *. cbn in *. apply andb_true_intro. split; apply Z.leb_le; lia.
 Qed.
+
+(* the statement with the span hypothesis, kept for the callers written before the repair *)
+Lemma const_range_local n' n : rel1 n' n -> good cn n = true -> Site_cr n -> esim (fst (const_range_v n')) n.
+Proof. intros Hrel G _. apply const_range_local0; assumption. Qed.
 
 (* ---------------- the five passes and Optimize ---------------- *)
 Definition sites (P : expr -> Prop) (e : expr) : Prop := Forall P (subterms e).
@@ -2351,22 +2338,19 @@ Proof.
   - intros c [<-|[<-|[]]]; reflexivity.
 Qed.
 
-(* a..b with literal bounds -> the materialised []int (size window 1 .. 10^6), never charged to the budget *)
+(* a..b with literal bounds -> the materialised []int (size window 1 .. 10^6), never charged to the budget.
+   Since the repair of const_range.go (80e2856) no hypothesis on the span hi - lo is needed. *)
 Lemma const_range_sound : forall a a1 lo a2 hi ctx s,
-  akind a1 = RKNum KInt -> akind a2 = RKNum KInt -> - 2 ^ 63 <= iv hi - iv lo ->
+  akind a1 = RKNum KInt -> akind a2 = RKNum KInt ->
   rsim eq [] (ev ctx (fst (const_range_v (EBinary a BRange (EInt a1 lo) (EInt a2 hi)))) s)
              (ev ctx (EBinary a BRange (EInt a1 lo) (EInt a2 hi)) s).
 Proof.
-  intros a a1 lo a2 hi ctx s K1 K2 Sp.
+  intros a a1 lo a2 hi ctx s K1 K2.
   set (n := EBinary a BRange (EInt a1 lo) (EInt a2 hi)).
   assert (R : rel1 fe cfg env [] n n).
   { exists (children n). split; [reflexivity|]. unfold n. cbn [children].
     constructor; [apply esim_refl|constructor; [apply esim_refl|constructor]]. }
-  assert (HS : Site_cr fe cfg env n).
-  { intros a0 n1 n2 E ctx0 s0 lo0 s1 hi0 s2 E1 E2. unfold n in E. inversion E; subst.
-    rewrite ev_int, (int_const_int a1 KInt lo K1 eq_refl) in E1. rewrite ev_int, (int_const_int a2 KInt hi K2 eq_refl) in E2.
-    inversion E1; inversion E2; subst. exact Sp. }
-  pose proof (const_range_local fe cfg env [] n n R (good_range_redex a a1 lo a2 hi K1 K2) HS) as L.
+  pose proof (const_range_local0 fe cfg env [] n n R (good_range_redex a a1 lo a2 hi K1 K2)) as L.
   apply (es_sem _ _ _ _ _ _ (proj1 L)). apply ssim_refl.
 Qed.
 
